@@ -465,6 +465,12 @@ class ScriptBackend(TrialBackend):
 
     def _resume_trial(self, trial_id):
         if self.seq.get((trial_id, self.run[trial_id]), 0) > 0 or self.run[trial_id] > 0:
+            if getattr(self, "speculative_removal", False):
+                # explicitly requested early removal: a resume may find no checkpoint (by design); remember it
+                if trial_id not in self.has_ckpt:
+                    self.resumed_without_ckpt = getattr(self, "resumed_without_ckpt", []) + [trial_id]
+                    self.sym.goal("resumed-without-checkpoint")
+                return
             self.mon.v("C20", trial_id in self.has_ckpt, "C20.resume-without-checkpoint",
                        "trial %d is resumed but its checkpoint was deleted" % trial_id)
 
@@ -498,6 +504,9 @@ class ScriptBackend(TrialBackend):
                        "checkpoint of trial %d deleted while it is %s" % (trial_id, st))
             if st == "paused" and not self.mon.tuning_over:
                 self.sym.goal("paused-checkpoint-removed")
+            if getattr(self, "speculative_removal", False) and not self.mon.tuning_over:
+                self.mon.v("C20", st in ("paused", "stopping", "stopped", "completed", "failed"), "C20.early-removal-of-non-paused-trial",
+                           "speculative removal deleted the checkpoint of trial %d which is %s" % (trial_id, st))
             self.sym.event("delete checkpoint t%d" % trial_id)
             self.has_ckpt.discard(trial_id)
             self.deleted_log = getattr(self, "deleted_log", [])
